@@ -30,6 +30,7 @@ class Engine(ExprMixin, CallMixin):
                              'importlib', 'web', 'websockets', 'concurrent', 'torch', 'operator', 're', 'weakref', 'socket'}
         self.opaque_classes = set()
         self.method_position = {}
+        self.stable_opaque_attrs = set()     # attributes of opaque objects read as functions of the object (never written)
         self.opaque_methods = {'append', 'extend', 'reverse', 'add', 'update', 'clear', 'sort', 'insert', 'appendleft'}
         self._class_consts = {}
         self.axioms_z3 = [a for _, a in reg.axioms]
@@ -202,6 +203,8 @@ class Engine(ExprMixin, CallMixin):
                     ev(self, o, t.attr, v, s, node)
                 return None
             if isinstance(o, VOpaque):
+                if t.attr in self.stable_opaque_attrs:
+                    raise Refuse(f"write to attribute {t.attr!r} that the contracts read as stable (line {getattr(node, 'lineno', '?')})")
                 h = self.hooks.get('store_opaque_attr')
                 if h:
                     h(self, o, t.attr, v, s, node)
